@@ -619,6 +619,13 @@ def check(pid, tier, only=None, keep=False, jobs=None, repo=DEFAULT_REPO, quiet=
         nat_sum = []
         for n, nr in native_results:
             nat_sum.append(nr)
+            for kl in nr.get("known_lines", []):
+                fake = {"name": "native." + n["name"], "function": "", "desc": kl, "class": "native"}
+                k = match_known(known, pid, n["name"], fake)
+                if k:
+                    known_hits.append((k, n["name"], fake))
+                else:
+                    violations.append((n, {"name": n["name"], "native": dict(nr, what=kl)}, [fake]))
             if nr["status"] == "undecided":
                 undec.append((n["name"], nr.get("reason", "?")))
             elif nr["status"] == "fail":
@@ -712,6 +719,7 @@ def run_native(pid, n, scratch, tier, repo, seed):
             r["reason"] = "native run timed out"
             return r
         fails = [l[5:] for l in so.splitlines() if l.startswith("FAIL ")]
+        r["known_lines"] = [l[6:] for l in so.splitlines() if l.startswith("KNOWN ")]
         m = re.search(r"^CASES (\d+)", so, re.M)
         r["cases"] = int(m.group(1)) if m else 0
         m = re.search(r"^DISTINCT (\d+)", so, re.M)
